@@ -224,7 +224,7 @@ class C06(Check):
 
     # ---- generation --------------------------------------------------------
     def n_cases(self, tier):
-        return 6000 if tier == 'quick' else 200000
+        return 6000 if tier == 'quick' else 1500000
 
     def gen_case(self, rng, index):
         key = rng.choice(self.keys)
